@@ -8,7 +8,9 @@ A check is a python function run(ck) in checks/<id>.py.  It uses:
   ck.finish()        write evidence/<id>.json, print KNOWN-FINDING / VIOLATION lines, exit
 Exit codes: 0 held, 1 violation (real code only), 2 infrastructure problem (never a VIOLATION line).
 """
-import json, os, re, shutil, subprocess, sys, tempfile, time, hashlib, random, glob
+import json, os, re, shutil, subprocess, sys, tempfile, time, hashlib, random, glob, threading, itertools
+_uniq = itertools.count(1)
+_tlc_lock = threading.Lock()
 
 VERIF = os.path.dirname(os.path.dirname(os.path.abspath(__file__)))
 REPO = os.environ.get("VERIF_REPO", "/repo")
@@ -113,13 +115,14 @@ class Check:
         Returns TlcResult.  A TLC crash / timeout raises Infra.  An invariant violation is returned in
         .error (if allow_error) or raises Infra (a design-level error is never a violation by itself)."""
         sdir = self.path("spec")
-        if not os.path.isdir(sdir):
-            shutil.copytree(os.path.join(VERIF, "spec"), sdir)
+        with _tlc_lock:
+            if not os.path.isdir(sdir):
+                shutil.copytree(os.path.join(VERIF, "spec"), sdir)
         for fn, content in (files or {}).items():
             with open(os.path.join(sdir, fn), "w") as f:
                 f.write(content)
         if "\n" in cfg or not cfg.endswith(".cfg"):
-            cfgname = "_gen_%s_%d.cfg" % (module, len(os.listdir(sdir)))
+            cfgname = "_gen_%s_%d.cfg" % (module, next(_uniq))
             with open(os.path.join(sdir, cfgname), "w") as f:
                 f.write(cfg)
         else:
@@ -131,7 +134,7 @@ class Check:
                 txt, n = re.subn(r"(?m)^(\s*%s\s*=\s*).*$" % re.escape(k), lambda m: m.group(1) + str(v), txt)
                 if n == 0:
                     raise Infra("constant %s not in %s" % (k, cfgname))
-            cfgname = "_ovr_%d_%s" % (len(os.listdir(sdir)), os.path.basename(cfgname))
+            cfgname = "_ovr_%d_%s" % (next(_uniq), os.path.basename(cfgname))
             with open(os.path.join(sdir, cfgname), "w") as f:
                 f.write(txt)
         meta = tempfile.mkdtemp(prefix="meta-", dir=self.scratch)
@@ -212,12 +215,22 @@ class Check:
                     raise Infra("TLC error on %s/%s: %s\n%s" % (module, cfgname, (kind + " " + name).strip(), r.error["text"][-3000:]))
         shutil.rmtree(meta, ignore_errors=True)
         if count:
-            self.states += r.distinct
-            self.transitions += r.generated
+            with _tlc_lock:
+                self.states += r.distinct
+                self.transitions += r.generated
         self.log("tlc %s/%s: %d generated, %d distinct, %d records, %.1fs%s" % (
             module, os.path.basename(cfgname), r.generated, r.distinct, len(r.printed), r.wall,
             (" ERROR " + r.error["kind"] + " " + r.error["name"]) if r.error else ""))
         return r
+
+    def tlc_many(self, jobs, parallel=5):
+        """jobs: list of dict(kwargs for self.tlc incl. module, cfg); runs them concurrently; returns results in order (Infra re-raised)"""
+        from concurrent.futures import ThreadPoolExecutor
+        def one(j):
+            j = dict(j)
+            return self.tlc(j.pop("module"), j.pop("cfg"), **j)
+        with ThreadPoolExecutor(parallel) as ex:
+            return list(ex.map(one, jobs))
 
     # ------------------------------------------------------------------ Go build
     def overlay(self):
